@@ -39,7 +39,7 @@ theorem tbl_set (b : Src.B) (i : Nat) (n : Src.Node) : tbl (b.set i n) = (tbl b)
 the placeholders `allocLabels` made) may have become the `silent` node of its label -/
 def Grow (Z : Nat) (b b' : Src.B) : Prop :=
   (tbl b).length ≤ (tbl b').length ∧
-  ∀ i, i < (tbl b).length → (tbl b')[i]? = (tbl b)[i]? ∨ (i < Z ∧ ∃ k, (tbl b')[i]? = some (.silent k))
+  ∀ i, i < (tbl b).length → (tbl b')[i]? = (tbl b)[i]? ∨ ((0 < i ∧ i < Z) ∧ ∃ k, (tbl b')[i]? = some (.silent k))
 
 theorem Grow.of_append {Z : Nat} {b b' : Src.B} {extra : List Src.Node} (h : tbl b' = tbl b ++ extra) : Grow Z b b' :=
   ⟨by rw [h]; simp, fun i hi => .inl (by rw [h, List.getElem?_append_left hi])⟩
@@ -57,6 +57,12 @@ theorem Grow.len {Z : Nat} {b b' : Src.B} (h : Grow Z b b') : (tbl b).length ≤
 theorem Grow.get {Z : Nat} {b b' : Src.B} (h : Grow Z b b') {i : Nat} (hz : Z ≤ i) (hi : i < (tbl b).length) :
     (tbl b')[i]? = (tbl b)[i]? := by
   rcases h.2 i hi with e | ⟨hlt, _⟩
+  · exact e
+  · omega
+
+/-- node 0 (falling off the end of a routine) is not a label node -/
+theorem Grow.get0 {Z : Nat} {b b' : Src.B} (h : Grow Z b b') (hi : 0 < (tbl b).length) : (tbl b')[0]? = (tbl b)[0]? := by
+  rcases h.2 0 hi with e | ⟨hlt, _⟩
   · exact e
   · omega
 
